@@ -10,8 +10,11 @@ import (
 	"database/sql/driver"
 	"errors"
 	"io"
+	"runtime"
+	"strings"
 	"sync"
 	"sync/atomic"
+	"time"
 )
 
 const driverName = "verifc14"
@@ -38,6 +41,107 @@ type rec struct {
 	arm          string // "", "driver", "norows", "prepare": consumed by the next matching statement-level call
 
 	hitOpen, hitBegin, hitStmt, hitCommit, hitRollback bool
+
+	// ---- context faults (ctxfam.go): the caller's context ends INSIDE a driver callback ----
+	ctxAt    string        // "", open, begin, end: the callback in which the context ends (statement-level calls: armCtx)
+	ctxRes   string        // ok (the call completes all the same) | ctxerr (the call answers ctx.Err(), as real drivers do)
+	armCtx   int           // -1 = not armed; n = let n statement-level driver calls pass, end the context inside the next one
+	endCtx   func() error  // ends the case's context and returns its Err()
+	returned chan struct{} // closed by the runner when Transact/TransactCtx has returned (or panicked)
+	gateWait time.Duration // see fire
+	hitCtx   bool          // the context was ended at the planned point
+	async    bool          // ... and that callback was not running on the caller's goroutine
+	gate     string        // "", returned, expired
+
+	inflight int // driver callbacks currently executing
+	openTx   int // transactions begun (Begin answered ok) and not yet ended by a Commit/Rollback call
+
+	beginErr, commitErr, rollbackErr error // what the driver actually answered
+}
+
+func (r *rec) enter() { r.mu.Lock(); r.inflight++; r.mu.Unlock() }
+func (r *rec) leave() { r.mu.Lock(); r.inflight--; r.mu.Unlock() }
+
+// unsettled: some driver callback is still executing or a begun transaction has not been ended.
+func (r *rec) unsettled() bool {
+	r.mu.Lock()
+	defer r.mu.Unlock()
+	return r.inflight > 0 || r.openTx > 0
+}
+
+// invokeFrame is the function (run.go) from which the harness calls Transact/TransactCtx.
+const invokeFrame = "main.(*runner).invoke"
+
+// onCallerGoroutine reports whether the harness' call of Transact/TransactCtx is on the current
+// goroutine's stack, i.e. whether the driver callback runs synchronously below that call. If it
+// does, the call cannot return before the callback does.
+func onCallerGoroutine() bool {
+	var pcs [256]uintptr
+	n := runtime.Callers(2, pcs[:])
+	frames := runtime.CallersFrames(pcs[:n])
+	for {
+		f, more := frames.Next()
+		if strings.HasSuffix(f.Function, invokeFrame) {
+			return true
+		}
+		if !more {
+			return false
+		}
+	}
+}
+
+// fire ends the case's context if this callback is the planned point. "The call is in flight
+// when the caller's context ends and completes afterwards": if the callback runs below the
+// harness' call (always, on the pinned tree) the caller cannot have gone away and nothing is
+// waited for. If it runs on another goroutine (the implementation handed the driver call to a
+// helper), the callback is held until the runner has seen Transact/TransactCtx return — the slow
+// server answers after the caller gave up — or until gateWait expires (an implementation that
+// waits for its helper: the call then simply completes; the expiry never decides a verdict).
+// Must be called without r.mu held.
+func (r *rec) fire(point string) (bool, error) {
+	r.mu.Lock()
+	match := false
+	switch {
+	case r.hitCtx || r.endCtx == nil:
+	case point == "stmt":
+		if r.armCtx == 0 {
+			match = true
+			r.armCtx = -1
+		} else if r.armCtx > 0 {
+			r.armCtx--
+		}
+	default:
+		match = r.ctxAt == point
+	}
+	if !match {
+		r.mu.Unlock()
+		return false, nil
+	}
+	r.hitCtx = true
+	r.log = append(r.log, "ctx!")
+	r.mu.Unlock()
+	err := r.endCtx()
+	if !onCallerGoroutine() {
+		g := "expired"
+		t := time.NewTimer(r.gateWait)
+		select {
+		case <-r.returned:
+			g = "returned"
+		case <-t.C:
+		}
+		t.Stop()
+		r.mu.Lock()
+		r.async, r.gate = true, g
+		r.log = append(r.log, "gate:"+g)
+		r.mu.Unlock()
+	}
+	return true, err
+}
+
+func (r *rec) setArmCtx(n int) {
+	r.mu.Lock()
+	r.armCtx = n
+	r.mu.Unlock()
 }
 
 func (r *rec) add(op string) {
@@ -99,12 +203,18 @@ func (c connector) Driver() driver.Driver                        { return namedD
 
 func (s *slot) open() (driver.Conn, error) {
 	r := s.rec()
+	r.enter()
+	defer r.leave()
 	r.add("open")
-	if r.failOpen {
+	fired, cerr := r.fire("open")
+	if r.failOpen || (fired && r.ctxRes == "ctxerr") {
 		r.mu.Lock()
 		r.hitOpen = true
 		r.mu.Unlock()
-		return nil, errOpen
+		if r.failOpen {
+			return nil, errOpen
+		}
+		return nil, cerr
 	}
 	return &conn{s: s}, nil
 }
@@ -125,67 +235,107 @@ func (c *conn) Ping(context.Context) error { c.s.rec().add("ping"); return nil }
 func (c *conn) Close() error               { c.s.rec().add("connclose"); return nil }
 func (c *conn) Begin() (driver.Tx, error)  { return c.BeginTx(context.Background(), driver.TxOptions{}) }
 
-func (c *conn) BeginTx(context.Context, driver.TxOptions) (driver.Tx, error) {
+func (c *conn) BeginTx(ctx context.Context, _ driver.TxOptions) (driver.Tx, error) {
 	r := c.s.rec()
+	r.enter()
+	defer r.leave()
+	r.add("begin")
+	fired, cerr := r.fire("begin")
 	r.mu.Lock()
 	defer r.mu.Unlock()
-	r.log = append(r.log, "begin")
-	if r.failBegin {
-		r.hitBegin = true
-		return nil, errBegin
+	switch {
+	case r.failBegin:
+		r.hitBegin, r.beginErr = true, errBegin
+	case fired && r.ctxRes == "ctxerr":
+		r.hitBegin, r.beginErr = true, cerr
+	case ctx.Err() != nil: // like any real driver: a call that carries an ended context is refused
+		r.hitBegin, r.beginErr = true, ctx.Err()
+	default:
+		r.openTx++
+		return &tx{r: r}, nil
 	}
-	return &tx{r: r}, nil
+	return nil, r.beginErr
 }
 
 func (c *conn) Prepare(q string) (driver.Stmt, error) {
 	return c.PrepareContext(context.Background(), q)
 }
 
-func (c *conn) PrepareContext(_ context.Context, q string) (driver.Stmt, error) {
+func (c *conn) PrepareContext(ctx context.Context, q string) (driver.Stmt, error) {
 	r := c.s.rec()
+	r.enter()
+	defer r.leave()
+	r.add("prepare")
+	fired, cerr := r.fire("stmt")
 	r.mu.Lock()
 	defer r.mu.Unlock()
-	r.log = append(r.log, "prepare")
+	if fired && r.ctxRes == "ctxerr" {
+		return nil, cerr
+	}
 	if r.arm == "prepare" {
 		r.arm = ""
 		r.hitStmt = true
 		return nil, errPrepare
 	}
+	if !fired && ctx.Err() != nil {
+		return nil, ctx.Err()
+	}
 	return &stmt{r: r}, nil
 }
 
-func (c *conn) ExecContext(_ context.Context, _ string, _ []driver.NamedValue) (driver.Result, error) {
+func (c *conn) ExecContext(ctx context.Context, _ string, _ []driver.NamedValue) (driver.Result, error) {
 	r := c.s.rec()
 	if r.skip {
 		return nil, driver.ErrSkip
 	}
-	return r.doExec()
+	return r.doExec(ctx)
 }
 
-func (c *conn) QueryContext(_ context.Context, _ string, _ []driver.NamedValue) (driver.Rows, error) {
+func (c *conn) QueryContext(ctx context.Context, _ string, _ []driver.NamedValue) (driver.Rows, error) {
 	r := c.s.rec()
 	if r.skip {
 		return nil, driver.ErrSkip
 	}
-	return r.doQuery()
+	return r.doQuery(ctx)
 }
 
-func (r *rec) doExec() (driver.Result, error) {
+func (r *rec) doExec(ctx context.Context) (driver.Result, error) {
+	r.enter()
+	defer r.leave()
+	r.add("exec")
+	fired, cerr := r.fire("stmt")
 	r.mu.Lock()
 	defer r.mu.Unlock()
-	r.log = append(r.log, "exec")
+	if fired && r.ctxRes == "ctxerr" {
+		return nil, cerr
+	}
 	if r.arm == "driver" {
 		r.arm = ""
 		r.hitStmt = true
 		return nil, errStmt
 	}
+	if !fired && ctx.Err() != nil {
+		return nil, ctx.Err()
+	}
 	return driver.RowsAffected(1), nil
 }
 
-func (r *rec) doQuery() (driver.Rows, error) {
+func (r *rec) doQuery(ctx context.Context) (driver.Rows, error) {
+	r.enter()
+	defer r.leave()
+	r.add("query")
+	fired, cerr := r.fire("stmt")
 	r.mu.Lock()
 	defer r.mu.Unlock()
-	r.log = append(r.log, "query")
+	if fired {
+		// never rows together with an ended context: database/sql closes such rows from a goroutine
+		// of its own (Rows.awaitDone), so whether the body still reads them is a race inside
+		// database/sql that would make the body's outcome — not the verdict — schedule dependent
+		return nil, cerr
+	}
+	if ctx.Err() != nil {
+		return nil, ctx.Err()
+	}
 	switch r.arm {
 	case "driver":
 		r.arm = ""
@@ -210,13 +360,13 @@ var (
 
 func (s *stmt) Close() error                               { s.r.add("stmtclose"); return nil }
 func (s *stmt) NumInput() int                              { return -1 }
-func (s *stmt) Exec([]driver.Value) (driver.Result, error) { return s.r.doExec() }
-func (s *stmt) Query([]driver.Value) (driver.Rows, error)  { return s.r.doQuery() }
-func (s *stmt) ExecContext(context.Context, []driver.NamedValue) (driver.Result, error) {
-	return s.r.doExec()
+func (s *stmt) Exec([]driver.Value) (driver.Result, error) { return s.r.doExec(context.Background()) }
+func (s *stmt) Query([]driver.Value) (driver.Rows, error)  { return s.r.doQuery(context.Background()) }
+func (s *stmt) ExecContext(ctx context.Context, _ []driver.NamedValue) (driver.Result, error) {
+	return s.r.doExec(ctx)
 }
-func (s *stmt) QueryContext(context.Context, []driver.NamedValue) (driver.Rows, error) {
-	return s.r.doQuery()
+func (s *stmt) QueryContext(ctx context.Context, _ []driver.NamedValue) (driver.Rows, error) {
+	return s.r.doQuery(ctx)
 }
 
 // ---- driver.Tx ----
@@ -225,26 +375,38 @@ type tx struct{ r *rec }
 
 func (t *tx) Commit() error {
 	r := t.r
+	r.enter()
+	defer r.leave()
+	r.add("commit")
+	fired, cerr := r.fire("end")
 	r.mu.Lock()
 	defer r.mu.Unlock()
-	r.log = append(r.log, "commit")
-	if r.failCommit {
-		r.hitCommit = true
-		return errCommit
+	r.openTx-- // database/sql never asks the driver twice: the attempt ends the transaction
+	switch {
+	case r.failCommit:
+		r.hitCommit, r.commitErr = true, errCommit
+	case fired && r.ctxRes == "ctxerr":
+		r.hitCommit, r.commitErr = true, cerr
 	}
-	return nil
+	return r.commitErr
 }
 
 func (t *tx) Rollback() error {
 	r := t.r
+	r.enter()
+	defer r.leave()
+	r.add("rollback")
+	fired, cerr := r.fire("end")
 	r.mu.Lock()
 	defer r.mu.Unlock()
-	r.log = append(r.log, "rollback")
-	if r.failRollback {
-		r.hitRollback = true
-		return errRollback
+	r.openTx--
+	switch {
+	case r.failRollback:
+		r.hitRollback, r.rollbackErr = true, errRollback
+	case fired && r.ctxRes == "ctxerr":
+		r.hitRollback, r.rollbackErr = true, cerr
 	}
-	return nil
+	return r.rollbackErr
 }
 
 // ---- driver.Rows: one column "v", zero or one row ----
